@@ -433,6 +433,11 @@ class Check:
         kf = load_known_findings()
         for fid, n in sorted(self.known.items()):
             ent = kf.get(fid, {})
+            if self.prop not in ent.get("property", [self.prop]):
+                # a listed defect of ANOTHER property met while exercising this one (e.g. the C08 finding in an enforce
+                # trace of C04): it does not concern this property, it is neither a violation nor a finding of it
+                self.notes.append("met %d case(s) of the known finding %s, which concerns %s, not this property" % (n, fid, "/".join(ent.get("property", []))))
+                continue
             print("KNOWN-FINDING: property=%s %s [%s] (%d case(s) in this run)" % (self.prop, ent.get("what", fid), fid, n), flush=True)
         replay_paths = []
         for summary, replay in self.violations[:20]:
@@ -456,7 +461,7 @@ class Check:
             "assumptions": self.assumptions,
             "wall_s": round(time.time() - self.t0, 1),
             "violations": len(self.violations),
-            "known_findings": self.known,
+            "known_findings": {k: v for k, v in self.known.items() if self.prop in kf.get(k, {}).get("property", [self.prop])},
             "notes": self.notes,
             "repo_hash": repo_hash(),
             "framework_hash": framework_hash(),
@@ -467,7 +472,8 @@ class Check:
         with open(tmp, "w") as f:
             json.dump(ev, f, indent=1, sort_keys=True)
         os.replace(tmp, os.path.join(ev_dir, "%s.json" % self.prop))
-        log("%s %s: %d violation(s), %d known finding(s), %.1fs" % (self.prop, self.tier, len(self.violations), len(self.known), time.time() - self.t0))
+        log("%s %s: %d violation(s), %d known finding(s), %.1fs" % (self.prop, self.tier, len(self.violations),
+                                                                    len([k for k in self.known if self.prop in kf.get(k, {}).get("property", [self.prop])]), time.time() - self.t0))
         return 1 if self.violations else 0
 
 
